@@ -314,6 +314,10 @@ func teletextPESDataType(dataIdentifier uint8) string {
 	return teletextPESDataTypeUnknown
 }
 
+// Value stored for a character that failed the parity check: characters are 7 bits long, therefore it can't be
+// mistaken with a valid one and it is decoded as nothing
+const teletextInvalidCharacter = 0xff
+
 // Teletext PES data unit ids
 const (
 	teletextPESDataUnitIDEBUNonSubtitleData = 0x2
@@ -694,7 +698,8 @@ func (b *teletextPageBuffer) parsePacketData(i []byte, packetNumber uint8) {
 	for idx := uint8(0); idx < 40; idx++ {
 		v, ok := astikit.ByteParity(bits.Reverse8(i[idx]))
 		if !ok {
-			v = 0
+			// 0x0 is the "alpha black" spacing attribute: use a value that is not a teletext character
+			v = teletextInvalidCharacter
 		}
 		b.currentPage.data[packetNumber][idx] = v
 	}
@@ -773,7 +778,7 @@ func (d *teletextCharacterDecoder) setTripletX28(i uint32) {
 
 // TODO Add tests
 func (d *teletextCharacterDecoder) decode(i byte) []byte {
-	if i < 0x20 {
+	if i < 0x20 || i > 0x7f {
 		return []byte{}
 	}
 	return d.c[i-0x20]
